@@ -45,7 +45,7 @@ CLAIMED = {
           'Lean proof (totality, termination measure) + exception-class differential runs',
           'exceptions raised inside pandas/numpy/scipy are outside the model (partial)', '7/C09'),
   'C13': ('without budget/share constraints every greedy design is an evaluated design of the exhaustive search with the same score (C13_greedy_in_evaluated), hence not above the optimum (C13_not_better) and empty when exhaustive is empty (C13_empty); both real searches compared',
-          'Lean proof (greedy invariant + characterisation of the evaluated set) + paired real runs',
+          'Lean proof (greedy invariant + characterisation of the evaluated set; design_within_constraints regenerated from the source, T8 / tie_within) + paired real runs',
           'NaN-free scores for the order statement', '7/C13'),
   'C08': ('DiagCache state machine; theorem C08_no_stale (every read in every history = fresh value) proved for arbitrary invalidation lists under two obligations discharged by `decide` on lists regenerated from the source (translator T3); history correspondence against fresh objects',
           'Lean proof over a generated fragment + differential histories',
@@ -54,8 +54,8 @@ CLAIMED = {
           'Lean proof (operator/Pascal argument + bijection) + exhaustive differential sweep',
           'hand model of count_max_designs and the generators; scipy comb, itertools.combinations, set iteration order of small ints trusted', '7/C11'),
   'C14': ('bounded queue: for every push history and key, result sorted, length = min(k, n), kept ++ dropped is a permutation of the pushes with nothing dropped above anything kept, keys = pushed keys, reads pure; correspondence on random histories',
-          'Lean proof by invariant over push histories + differential histories',
-          'heapq abstracted to an ascending list; order theorems assume a strict weak order (NaN-free scores); ties compared by key only', '7/C14'),
+          'Lean proof by invariant over push histories, about push/get_result regenerated from the source (T7, tie theorems tie_heap_*) + differential histories',
+          'heapq primitives abstracted to an ascending list; order theorems assume a strict weak order (NaN-free scores); ties compared by key only', '7/C14'),
   'C16': ('validate accepts iff WellFormed else ValueError; for the generated set-algebra formulas the seven classes partition any ordered subset, each geo in the class of its row, indices are positions; correspondence incl. all tables with <= 3 geos',
           'Lean proof over generated formulas (T2) + exhaustive/random differential tables',
           'pandas frame handling abstracted to a Table record derived from the construction recipe', '7/C16'),
